@@ -1,26 +1,42 @@
-// guards.go — WHAT DECIDES WHETHER lib/utxo TELLS THE BALANCE INDEX about a change of the unspent set.
+// guards.go — WHAT DECIDES WHETHER lib/utxo TELLS THE BALANCE INDEX about a change of the unspent set, WHAT IT HANDS TO IT,
+// and WHERE THE INSTALLED CALLBACKS CAN CHANGE.
 //
 // The index (client/wallet) is maintained through two function values of UnspentDB.CB: NotifyTxAdd and NotifyTxDel.
 // The model (Model/Balances.lean `step`, Model/BalancesBlock.lean `connectBlock`) runs the callback for EVERY record a
 // block connection / disconnection adds or touches, as long as the callback is installed — whatever the block's height,
-// the height of the best known header (BlockChanges.LastKnownHeight: how far behind the node is while it connects the
-// block), the length of the unwind buffer, whether undo data is kept. That rests on this source fact, regenerated here on
-// every run: for every call site `….CB.NotifyTxAdd(…)` / `….CB.NotifyTxDel(…)` in package lib/utxo, the set of QUANTITIES
-// THE CONDITIONS GUARDING THE CALL DEPEND ON:
-//   - conditions of the if / for / switch statements around the call, and of earlier statements of the enclosing blocks
-//     that leave the block (`if c { return }`, continue, break, goto, panic) — inside the function holding the call;
-//   - when that function is a closure bound to a local name, the same for every call of that name (go / defer included);
-//     when it is a function or method that is not an entry point of the package, the same for every call site in the package
-//     (four levels).
+// the height of the best known header (BlockChanges.LastKnownHeight), the length of the unwind buffer, whether undo data is
+// kept. That rests on these source facts, regenerated here on every run. For every call site `….CB.NotifyTxAdd(…)` /
+// `….CB.NotifyTxDel(…)` in package lib/utxo (also through a local that may hold the callback), per entry point of the
+// package through which it is reached:
+//
+//	GUARDS — the set of quantities the conditions guarding the call MAY depend on:
+//	- conditions of the if / for / range / switch-case statements around the call;
+//	- every condition tested anywhere inside an EARLIER statement of an enclosing block that contains, at any depth (if, else,
+//	  switch, select, for, labeled statement), a return, goto, panic / os.Exit, a labeled break / continue, or an unlabeled
+//	  break / continue not caught inside the statement itself;
+//	- when the function holding the call is a closure bound to a local name, the same for every call of that name (go / defer
+//	  included); when it is a function or method that is not an entry point of the package, the same for every call site in
+//	  the package (four levels), with its parameters bound to that chain's arguments.
+//	ARGUMENTS — the set of quantities the arguments of the call are made of.
+//
+// And: every assignment to / address taken of a field CB, CB.NotifyTxAdd, CB.NotifyTxDel in the package (callbackWrites).
 //
 // CANONICAL FORM of a quantity (renaming, helper extraction / inlining and reordering do not change it):
-//   - a field path is rooted in the TYPE of the receiver / parameter it starts from: `db.CB.NotifyTxAdd` with
-//     `db *UnspentDB` prints as `UnspentDB.CB.NotifyTxAdd`, `changes.Height` as `BlockChanges.Height`;
-//   - a local defined once (`x := e`, `var x = e`) stands for e; a range variable for the ranged expression; a parameter of a
-//     closure / non-entry function for what the call sites pass; the result of a call of a non-entry function of the package
-//     for what that function returns; every other local (and every literal, builtin, basic type) contributes nothing;
-//   - package-level names print as they are, imported ones as `pkg.Name`;
-//   - index / slice expressions contribute the quantities of all their parts. The fact is the sorted set.
+//   - a field path is rooted in the TYPE of the receiver / parameter / composite literal / new(T) it starts from:
+//     `db.CB.NotifyTxAdd` with `db *UnspentDB` prints as `UnspentDB.CB.NotifyTxAdd`, `changes.Height` as `BlockChanges.Height`;
+//     fields of struct types declared inside a function are locals in disguise and are not printed;
+//   - a local defined once (`x := e`, `var x = e`) stands for e; a range variable for the ranged expression; ANY OTHER LOCAL
+//     (assigned more than once, declared without a value, incremented) for the union of everything written to it and of the
+//     conditions around each of those writes; a local whose address is taken adds the marker `<local>&`; a parameter of a
+//     closure / non-entry function stands for what the call sites pass; a call of a non-entry function of the package for what
+//     it returns and every condition it tests; a call of an entry point for `Name()` plus its arguments;
+//   - package-level names print as they are (or by role, pkg.alias), imported ones as `pkg.Name`; builtins, basic types and
+//     literals contribute nothing;
+//   - index expressions, slice bounds and call arguments contribute their quantities as INGREDIENTS (a selector applied to
+//     the whole expression does not extend them). The fact is the sorted set.
+//
+// The sets are MAY-DEPEND sets from syntax: they do not see what exported functions or other packages compute, state reached
+// through function values / interfaces, or an edit that keeps the set but changes the expression.
 package main
 
 import (
@@ -32,14 +48,17 @@ import (
 )
 
 type guardCtx struct {
-	p      *pkg
-	parent map[ast.Node]ast.Node
-	fdOf   map[ast.Node]*ast.FuncDecl
-	via    map[ast.Node]*ast.CallExpr // function / closure on the chain being evaluated -> the call through which it was entered
+	p       *pkg
+	parent  map[ast.Node]ast.Node
+	fdOf    map[ast.Node]*ast.FuncDecl
+	via     map[ast.Node]*ast.CallExpr // function / closure on the chain being evaluated -> the call through which it was entered
+	busyFn  map[*ast.FuncDecl]bool
+	lfields map[*ast.FuncDecl]map[string]bool
+	busy    map[*ast.Object]bool // locals being resolved (a local defined in terms of itself: `n = n + 1`, `l = append(l, x)`)
 }
 
 func newGuardCtx(p *pkg) *guardCtx {
-	g := &guardCtx{p: p, parent: map[ast.Node]ast.Node{}, fdOf: map[ast.Node]*ast.FuncDecl{}, via: map[ast.Node]*ast.CallExpr{}}
+	g := &guardCtx{p: p, parent: map[ast.Node]ast.Node{}, fdOf: map[ast.Node]*ast.FuncDecl{}, via: map[ast.Node]*ast.CallExpr{}, busy: map[*ast.Object]bool{}, busyFn: map[*ast.FuncDecl]bool{}, lfields: map[*ast.FuncDecl]map[string]bool{}}
 	for _, fd := range p.all {
 		fd := fd
 		var stack []ast.Node
@@ -199,12 +218,49 @@ func (g *guardCtx) callsOf(owner ast.Node) (calls []*ast.CallExpr, ok bool) {
 	return nil, false
 }
 
+// localField: `name` is a field of a struct type declared inside fd.
+func (g *guardCtx) localField(fd *ast.FuncDecl, name string) bool {
+	m, ok := g.lfields[fd]
+	if !ok {
+		m = map[string]bool{}
+		ast.Inspect(fd.Body, func(n ast.Node) bool {
+			if st, ok := n.(*ast.StructType); ok {
+				for _, f := range st.Fields.List {
+					for _, nm := range f.Names {
+						m[nm.Name] = true
+					}
+				}
+			}
+			return true
+		})
+		g.lfields[fd] = m
+	}
+	return m[name]
+}
+
 type rootSet map[string]bool
 
 func (r rootSet) addAll(o rootSet) {
 	for k := range o {
 		r[k] = true
 	}
+}
+
+// ingredients: the quantities of an index / slice bound / call argument are part of what the expression depends on, but a
+// field selected from the expression is not a field of THEM: they are marked (`~`) so that selectors do not extend them;
+// clean() removes the marks.
+func (r rootSet) addIngredients(o rootSet) {
+	for k := range o {
+		r["~"+strings.TrimPrefix(k, "~")] = true
+	}
+}
+
+func (r rootSet) clean() rootSet {
+	out := rootSet{}
+	for k := range r {
+		out[strings.TrimPrefix(k, "~")] = true
+	}
+	return out
 }
 
 // paths: the canonical field paths an expression denotes (a set: a parameter stands for every call site's argument).
@@ -229,18 +285,25 @@ func (g *guardCtx) paths(e ast.Expr, depth int) rootSet {
 		out.addAll(g.paths(x.Y, depth))
 	case *ast.IndexExpr:
 		out.addAll(g.paths(x.X, depth))
-		out.addAll(g.paths(x.Index, depth))
+		out.addIngredients(g.paths(x.Index, depth))
 	case *ast.SliceExpr:
 		out.addAll(g.paths(x.X, depth))
-		out.addAll(g.paths(x.Low, depth))
-		out.addAll(g.paths(x.High, depth))
-		out.addAll(g.paths(x.Max, depth))
+		out.addIngredients(g.paths(x.Low, depth))
+		out.addIngredients(g.paths(x.High, depth))
+		out.addIngredients(g.paths(x.Max, depth))
 	case *ast.CompositeLit:
+		if x.Type != nil {
+			if tn := typeName(x.Type); tn != "?" && !strings.HasPrefix(tn, "[]") && !strings.HasPrefix(tn, "map[") {
+				if id, ok := x.Type.(*ast.Ident); !ok || fd == nil || !isLocal(fd, id) {
+					out[tn] = true // a value of that type: selectors are rooted in it
+				}
+			}
+		}
 		for _, el := range x.Elts {
 			if kv, ok := el.(*ast.KeyValueExpr); ok {
-				out.addAll(g.paths(kv.Value, depth))
+				out.addIngredients(g.paths(kv.Value, depth))
 			} else {
-				out.addAll(g.paths(el, depth))
+				out.addIngredients(g.paths(el, depth))
 			}
 		}
 	case *ast.SelectorExpr:
@@ -248,12 +311,23 @@ func (g *guardCtx) paths(e ast.Expr, depth int) rootSet {
 			out[id.Name+"."+x.Sel.Name] = true
 			return out
 		}
+		if fd != nil && g.localField(fd, x.Sel.Name) { // a field of a struct type declared inside the function: a local in disguise
+			return g.paths(x.X, depth)
+		}
 		for b := range g.paths(x.X, depth) {
+			if strings.HasPrefix(b, "~") {
+				out[b] = true
+				continue
+			}
 			out[b+"."+x.Sel.Name] = true
 		}
 	case *ast.CallExpr:
+		if id, ok := strip(x.Fun).(*ast.Ident); ok && id.Name == "new" && len(x.Args) == 1 && (fd == nil || !isLocal(fd, id)) {
+			out[typeName(x.Args[0])] = true // new(T): a value of type T
+			return out
+		}
 		for _, a := range x.Args {
-			out.addAll(g.paths(a, depth))
+			out.addIngredients(g.paths(a, depth))
 		}
 		fn := strip(x.Fun)
 		if ix, ok := fn.(*ast.IndexExpr); ok {
@@ -276,6 +350,10 @@ func (g *guardCtx) paths(e ast.Expr, depth int) rootSet {
 				callee = g.p.methods[f.Sel.Name] // (the receiver's fields show up through the callee's body)
 				if len(callee) == 0 {
 					for b := range g.paths(f.X, depth) {
+						if strings.HasPrefix(b, "~") {
+							out[b] = true
+							continue
+						}
 						out[b+"."+f.Sel.Name+"()"] = true
 					}
 				}
@@ -288,7 +366,15 @@ func (g *guardCtx) paths(e ast.Expr, depth int) rootSet {
 				out[fname(c)+"()"] = true
 				continue
 			}
-			// a helper that is not an entry point: what it returns
+			// a helper that is not an entry point: what it returns, and every condition it tests (which of its returns
+			// runs is decided by them)
+			if !g.busyFn[c] {
+				g.busyFn[c] = true
+				for _, cond := range leaversAlways(c.Body) {
+					out.addAll(g.paths(cond, depth+2))
+				}
+				delete(g.busyFn, c)
+			}
 			ast.Inspect(c.Body, func(n ast.Node) bool {
 				switch r := n.(type) {
 				case *ast.FuncLit:
@@ -314,7 +400,11 @@ func (g *guardCtx) paths(e ast.Expr, depth int) rootSet {
 		}
 		if !isLocal(fd, x) {
 			if !universe[x.Name] {
-				out[x.Name] = true
+				if a, ok := g.p.alias[x.Name]; ok {
+					out[a] = true
+				} else {
+					out[x.Name] = true
+				}
 			}
 			return out
 		}
@@ -357,19 +447,132 @@ func (g *guardCtx) paths(e ast.Expr, depth int) rootSet {
 					return g.paths(d.Rhs[0], depth+1)
 				}
 			}
+			return g.everyWrite(fd, x, depth+1)
 		case *ast.ValueSpec:
 			for i, nm := range d.Names {
 				if nm.Obj == x.Obj && i < len(d.Values) && !g.writtenElsewhere(fd, x, nil) {
 					return g.paths(d.Values[i], depth+1)
 				}
 			}
+			return g.everyWrite(fd, x, depth+1)
 		case *ast.RangeStmt:
-			if v, ok := d.Value.(*ast.Ident); ok && v.Obj == x.Obj {
-				return g.paths(d.X, depth+1)
+			for _, kv := range []ast.Expr{d.Key, d.Value} {
+				if v, ok := kv.(*ast.Ident); ok && v.Obj == x.Obj {
+					out.addAll(g.paths(d.X, depth+1))
+				}
 			}
+			if g.writtenElsewhere(fd, x, nil) {
+				out.addAll(g.everyWrite(fd, x, depth+1))
+			}
+			return out
+		case *ast.TypeSpec: // a local type name
+		default:
+			out["<local>"] = true // a local of a kind this generator does not resolve (type switch binding, label …): stop
 		}
 	}
 	return out
+}
+
+// everyWrite: a local that is written more than once (or declared without a value) stands for EVERYTHING that may flow
+// into it: the right-hand side of every assignment / definition, the initialiser of its declaration, and — because which of
+// the writes is the last one is decided by the control flow — the conditions of every if / for / switch / case around each
+// write (inside the function). `x++`, `x += e`, `&x` and multi-value assignments are covered the same way (the operands; for
+// an address taken: the marker `<local>&`, which no restated fact contains).
+func (g *guardCtx) everyWrite(fd *ast.FuncDecl, id *ast.Ident, depth int) rootSet {
+	out := rootSet{}
+	if g.busy[id.Obj] || depth > 12 {
+		return out
+	}
+	g.busy[id.Obj] = true
+	defer delete(g.busy, id.Obj)
+	is := func(e ast.Expr) bool {
+		li, ok := strip(e).(*ast.Ident)
+		return ok && li.Obj == id.Obj
+	}
+	around := func(n ast.Node) {
+		for _, c := range g.condsAround(n) {
+			out.addIngredients(g.paths(c, depth+1))
+		}
+	}
+	ast.Inspect(fd.Body, func(n ast.Node) bool {
+		switch x := n.(type) {
+		case *ast.AssignStmt:
+			for i, l := range x.Lhs {
+				if !is(l) {
+					continue
+				}
+				if len(x.Lhs) == len(x.Rhs) {
+					out.addAll(g.paths(x.Rhs[i], depth+1))
+				} else {
+					for _, rh := range x.Rhs {
+						out.addAll(g.paths(rh, depth+1))
+					}
+				}
+				around(x)
+			}
+		case *ast.ValueSpec:
+			for i, nm := range x.Names {
+				if nm.Obj == id.Obj && i < len(x.Values) {
+					out.addAll(g.paths(x.Values[i], depth+1))
+				}
+			}
+		case *ast.IncDecStmt:
+			if is(x.X) {
+				around(x)
+			}
+		case *ast.RangeStmt:
+			for _, l := range []ast.Expr{x.Key, x.Value} {
+				if l != nil && is(l) {
+					out.addAll(g.paths(x.X, depth+1))
+					around(x)
+				}
+			}
+		case *ast.UnaryExpr:
+			if x.Op == token.AND && is(x.X) {
+				out["<local>&"] = true
+			}
+		}
+		return true
+	})
+	return out
+}
+
+// condsAround: the conditions of the if / for / range / switch-case statements enclosing node n inside its function
+// (function literals included: up to the function declaration).
+func (g *guardCtx) condsAround(n ast.Node) (conds []ast.Expr) {
+	child := n
+	for p := g.parent[n]; p != nil; child, p = p, g.parent[p] {
+		switch x := p.(type) {
+		case *ast.IfStmt:
+			if child == ast.Node(x.Body) || child == ast.Node(x.Else) {
+				conds = append(conds, x.Cond)
+			}
+		case *ast.ForStmt:
+			if child == ast.Node(x.Body) && x.Cond != nil {
+				conds = append(conds, x.Cond)
+			}
+		case *ast.RangeStmt:
+			if child == ast.Node(x.Body) {
+				conds = append(conds, x.X)
+			}
+		case *ast.CaseClause:
+			conds = append(conds, x.List...)
+			if sw, ok := g.parent[g.parent[x]].(*ast.SwitchStmt); ok {
+				if sw.Tag != nil {
+					conds = append(conds, sw.Tag)
+				}
+				for _, cc := range sw.Body.List {
+					if cc == ast.Stmt(x) {
+						break
+					}
+					conds = append(conds, cc.(*ast.CaseClause).List...)
+				}
+			}
+		case *ast.FuncDecl:
+			return
+		}
+	}
+	return
 }
 
 // writtenElsewhere: the local is assigned / incremented / has its address taken outside its defining statement.
@@ -416,63 +619,128 @@ func (g *guardCtx) assignedTo(fd *ast.FuncDecl, id *ast.Ident, depth int) rootSe
 	return out
 }
 
-func terminates(b *ast.BlockStmt) bool {
-	if b == nil || len(b.List) == 0 {
+func isExitCall(e ast.Expr) bool {
+	c, ok := e.(*ast.CallExpr)
+	if !ok {
 		return false
 	}
-	switch x := b.List[len(b.List)-1].(type) {
-	case *ast.ReturnStmt:
+	if id, ok := strip(c.Fun).(*ast.Ident); ok && id.Name == "panic" {
 		return true
-	case *ast.BranchStmt:
-		return x.Tok == token.CONTINUE || x.Tok == token.BREAK || x.Tok == token.GOTO
-	case *ast.ExprStmt:
-		if c, ok := x.X.(*ast.CallExpr); ok {
-			if id, ok := strip(c.Fun).(*ast.Ident); ok && id.Name == "panic" {
-				return true
-			}
-			if s, ok := strip(c.Fun).(*ast.SelectorExpr); ok {
-				if id, ok := s.X.(*ast.Ident); ok && id.Name == "os" && s.Sel.Name == "Exit" {
-					return true
-				}
-			}
+	}
+	if s, ok := strip(c.Fun).(*ast.SelectorExpr); ok {
+		if id, ok := s.X.(*ast.Ident); ok && (id.Name == "os" && s.Sel.Name == "Exit" || id.Name == "runtime" && s.Sel.Name == "Goexit" ||
+			id.Name == "log" && (strings.HasPrefix(s.Sel.Name, "Fatal") || strings.HasPrefix(s.Sel.Name, "Panic"))) {
+			return true
 		}
 	}
 	return false
 }
 
-// leavers: the statement may leave the enclosing block early under a condition — the conditions it tests.
+// leavers: the statement may leave the enclosing block early — it CONTAINS, at any depth (if, else, switch, select, for,
+// labeled statement, nested block; not inside a function literal), a return, goto, panic / os.Exit, a labeled break /
+// continue, or an unlabeled break / continue that is not caught by a for / switch / select inside the statement itself.
+// Then every condition tested anywhere inside the statement (if conditions, switch tags, case lists, for conditions, ranged
+// expressions) counts as a condition guarding what follows. Conservative: more conditions than needed, never fewer.
 func leavers(st ast.Stmt) (conds []ast.Expr) {
-	ifs, ok := st.(*ast.IfStmt)
-	if !ok {
-		return nil
-	}
-	hit := false
-	for cur := ifs; cur != nil; {
-		conds = append(conds, cur.Cond)
-		if terminates(cur.Body) {
-			hit = true
-		}
-		switch e := cur.Else.(type) {
-		case *ast.IfStmt:
-			cur = e
-			continue
-		case *ast.BlockStmt:
-			if terminates(e) {
-				hit = true
+	leaves := false
+	var walk func(n ast.Node, inLoop, inSwitch bool)
+	walk = func(n ast.Node, inLoop, inSwitch bool) {
+		ast.Inspect(n, func(m ast.Node) bool {
+			if m == nil || m == n {
+				return true
 			}
-		}
-		cur = nil
+			switch x := m.(type) {
+			case *ast.FuncLit:
+				return false
+			case *ast.ReturnStmt:
+				leaves = true
+			case *ast.BranchStmt:
+				switch {
+				case x.Tok == token.GOTO || x.Label != nil:
+					leaves = true
+				case x.Tok == token.BREAK && !inLoop && !inSwitch:
+					leaves = true
+				case x.Tok == token.CONTINUE && !inLoop:
+					leaves = true
+				}
+			case *ast.ExprStmt:
+				if isExitCall(x.X) {
+					leaves = true
+				}
+			case *ast.IfStmt:
+				conds = append(conds, x.Cond)
+			case *ast.ForStmt:
+				if x.Cond != nil {
+					conds = append(conds, x.Cond)
+				}
+				if x.Init != nil {
+					walk(x.Init, inLoop, inSwitch)
+				}
+				walk(x.Body, true, inSwitch)
+				return false
+			case *ast.RangeStmt:
+				conds = append(conds, x.X)
+				walk(x.Body, true, inSwitch)
+				return false
+			case *ast.SwitchStmt:
+				if x.Tag != nil {
+					conds = append(conds, x.Tag)
+				}
+				if x.Init != nil {
+					walk(x.Init, inLoop, inSwitch)
+				}
+				walk(x.Body, inLoop, true)
+				return false
+			case *ast.TypeSwitchStmt:
+				walk(x.Body, inLoop, true)
+				return false
+			case *ast.SelectStmt:
+				walk(x.Body, inLoop, true)
+				return false
+			case *ast.CaseClause:
+				conds = append(conds, x.List...)
+			}
+			return true
+		})
 	}
-	if !hit {
+	// the statement itself (walk skips its root)
+	walk(&ast.BlockStmt{List: []ast.Stmt{st}}, false, false)
+	if !leaves {
 		return nil
 	}
 	return conds
 }
 
+// leaversAlways: every condition tested inside the body (function literals excluded).
+func leaversAlways(body *ast.BlockStmt) (conds []ast.Expr) {
+	ast.Inspect(body, func(m ast.Node) bool {
+		switch x := m.(type) {
+		case *ast.FuncLit:
+			return false
+		case *ast.IfStmt:
+			conds = append(conds, x.Cond)
+		case *ast.ForStmt:
+			if x.Cond != nil {
+				conds = append(conds, x.Cond)
+			}
+		case *ast.RangeStmt:
+			conds = append(conds, x.X)
+		case *ast.SwitchStmt:
+			if x.Tag != nil {
+				conds = append(conds, x.Tag)
+			}
+		case *ast.CaseClause:
+			conds = append(conds, x.List...)
+		}
+		return true
+	})
+	return
+}
+
 // guardsOf: quantities the conditions guarding node `at` depend on (see the file comment), per ENTRY POINT of the package
 // through which the node is reached. The conditions are collected along one chain of call sites and evaluated when the
 // entry point is reached, with the parameters of the functions on the chain bound to the arguments of THAT chain's calls.
-func (g *guardCtx) guardsOf(at ast.Node, level int, seen map[ast.Node]bool, conds []ast.Expr, emit func(entry string, set rootSet)) {
+func (g *guardCtx) guardsOf(at ast.Node, level int, seen map[ast.Node]bool, conds []ast.Expr, args []ast.Expr, emit func(entry string, set, argSet rootSet)) {
 	if level > 4 || seen[at] {
 		return
 	}
@@ -482,7 +750,7 @@ func (g *guardCtx) guardsOf(at ast.Node, level int, seen map[ast.Node]bool, cond
 	through := func(owner ast.Node, calls []*ast.CallExpr) {
 		for _, c := range calls {
 			g.via[owner] = c
-			g.guardsOf(c, level+1, seen, conds, emit)
+			g.guardsOf(c, level+1, seen, conds, args, emit)
 			delete(g.via, owner)
 		}
 	}
@@ -542,7 +810,11 @@ func (g *guardCtx) guardsOf(at ast.Node, level int, seen map[ast.Node]bool, cond
 				for _, c := range conds {
 					set.addAll(g.paths(c, 0))
 				}
-				emit(fname(x), set)
+				argSet := rootSet{}
+				for _, a := range args {
+					argSet.addAll(g.paths(a, 0))
+				}
+				emit(fname(x), set, argSet)
 			}
 			return
 		}
@@ -550,52 +822,178 @@ func (g *guardCtx) guardsOf(at ast.Node, level int, seen map[ast.Node]bool, cond
 }
 
 // notifyGuards: for the callback field `cb` (NotifyTxAdd / NotifyTxDel): number of call sites in the package and, per entry
-// point of the package through which a call site is reached, the sorted set of quantities its guards depend on.
-func notifyGuards(p *pkg, cb string) (sites int, lean string) {
+// point of the package through which a call site is reached, the sorted set of quantities its guards depend on, and the
+// sorted set of quantities the ARGUMENTS handed to the callback are made of.
+func notifyGuards(p *pkg, cb string) (sites int, lean, leanArgs string) {
 	g := newGuardCtx(p)
-	all := map[string]rootSet{}
+	all, allArgs := map[string]rootSet{}, map[string]rootSet{}
 	for _, fd := range p.all {
 		if fd.Body == nil {
 			continue
 		}
+		fd := fd
 		ast.Inspect(fd.Body, func(n ast.Node) bool {
 			c, ok := n.(*ast.CallExpr)
 			if !ok {
 				return true
 			}
 			fn := strip(c.Fun)
+			var extra []ast.Expr
 			if id, ok := fn.(*ast.Ident); ok && isLocal(fd, id) { // cb := db.CB.NotifyTxAdd; if cb != nil { cb(rec) }
 				if rhs := singleDef(fd, id); rhs != nil {
 					fn = strip(rhs)
+				} else if g.mentionsField(id, cb, fd) {
+					// a local written more than once that may hold the callback: a call site whose guards include
+					// everything that decides what the local holds
+					sites++
+					extra = []ast.Expr{id}
+					fn = nil
 				}
 			}
-			if s, ok := fn.(*ast.SelectorExpr); ok && s.Sel.Name == cb {
-				sites++
-				g.guardsOf(c, 0, map[ast.Node]bool{}, nil, func(e string, set rootSet) {
+			if s, ok := fn.(*ast.SelectorExpr); ok && s.Sel.Name == cb || extra != nil {
+				if extra == nil {
+					sites++
+				}
+				g.guardsOf(c, 0, map[ast.Node]bool{}, extra, c.Args, func(e string, set, argSet rootSet) {
 					if all[e] == nil {
-						all[e] = rootSet{}
+						all[e], allArgs[e] = rootSet{}, rootSet{}
 					}
 					all[e].addAll(set)
+					allArgs[e].addAll(argSet)
 				})
 			}
 			return true
 		})
 	}
-	var es []string
-	for e := range all {
-		es = append(es, e)
-	}
-	sort.Strings(es)
-	var items []string
-	for _, e := range es {
-		var deps []string
-		for k := range all[e] {
-			deps = append(deps, k)
+	render := func(all map[string]rootSet) string {
+		var es []string
+		for e := range all {
+			es = append(es, e)
 		}
-		sort.Strings(deps)
-		items = append(items, fmt.Sprintf("(%q, %s)", e, leanList(deps)))
+		sort.Strings(es)
+		var items []string
+		for _, e := range es {
+			var deps []string
+			for k := range all[e].clean() {
+				deps = append(deps, k)
+			}
+			sort.Strings(deps)
+			items = append(items, fmt.Sprintf("(%q, %s)", e, leanList(deps)))
+		}
+		return "[" + strings.Join(items, ",\n    ") + "]"
 	}
-	return sites, "[" + strings.Join(items, ",\n    ") + "]"
+	return sites, render(all), render(allArgs)
+}
+
+// mentionsField: some write to the local has a right-hand side that mentions the field `name`.
+func (g *guardCtx) mentionsField(id *ast.Ident, name string, fd *ast.FuncDecl) bool {
+	for k := range g.everyWrite(fd, id, 0).clean() {
+		if strings.HasSuffix(k, "."+name) {
+			return true
+		}
+	}
+	return false
+}
+
+// cbWrites: every place in the package that may CHANGE which callbacks are installed: an assignment whose left-hand side
+// is (or ends in) the field CB / CB.NotifyTxAdd / CB.NotifyTxDel, the address of such a field taken, a whole-struct
+// assignment through a pointer (`*db = …`) to the type holding CB. Printed as `<entry point>: <lhs, type-rooted> = <what
+// the right-hand side is made of>`.
+func cbWrites(p *pkg) []string {
+	g := newGuardCtx(p)
+	// the struct type(s) with a field CB
+	holders := map[string]bool{}
+	for _, f := range p.files {
+		ast.Inspect(f, func(n ast.Node) bool {
+			if ts, ok := n.(*ast.TypeSpec); ok {
+				if st, ok := ts.Type.(*ast.StructType); ok {
+					for _, fl := range st.Fields.List {
+						for _, nm := range fl.Names {
+							if nm.Name == "CB" {
+								holders[ts.Name.Name] = true
+							}
+						}
+					}
+				}
+			}
+			return true
+		})
+	}
+	isCBPath := func(k string) bool {
+		return strings.HasSuffix(k, ".CB") || strings.HasSuffix(k, ".CB.NotifyTxAdd") || strings.HasSuffix(k, ".CB.NotifyTxDel")
+	}
+	set := map[string]bool{}
+	for _, fd := range p.all {
+		if fd.Body == nil {
+			continue
+		}
+		fd := fd
+		note := func(what string) {
+			hold := map[*ast.FuncDecl]bool{fd: true}
+			for _, e := range p.lift(hold) {
+				set[e+": "+what] = true
+			}
+		}
+		ast.Inspect(fd.Body, func(n ast.Node) bool {
+			switch x := n.(type) {
+			case *ast.AssignStmt:
+				for i, l := range x.Lhs {
+					var rhs ast.Expr
+					if len(x.Lhs) == len(x.Rhs) {
+						rhs = x.Rhs[i]
+					} else if len(x.Rhs) == 1 {
+						rhs = x.Rhs[0]
+					}
+					describe := func(k string) {
+						var deps []string
+						for d := range g.paths(rhs, 0).clean() {
+							deps = append(deps, d)
+						}
+						sort.Strings(deps)
+						note(k + " = {" + strings.Join(deps, ", ") + "}")
+					}
+					if st, ok := strip(l).(*ast.StarExpr); ok { // *db = …
+						for k := range g.paths(st.X, 0).clean() {
+							if holders[k] {
+								describe("*" + k)
+							}
+						}
+						continue
+					}
+					if _, ok := strip(l).(*ast.SelectorExpr); !ok {
+						continue
+					}
+					found := false
+					for k := range g.paths(l, 0).clean() {
+						if isCBPath(k) {
+							describe(k)
+							found = true
+						}
+					}
+					if txt := src(p.fset, l); !found && isCBPath(txt) { // root not resolved: by the spelling of the target
+						describe("<?>" + txt[strings.Index(txt, ".CB"):])
+					}
+				}
+			case *ast.UnaryExpr:
+				if x.Op == token.AND {
+					if _, ok := strip(x.X).(*ast.SelectorExpr); ok {
+						found := false
+						for k := range g.paths(x.X, 0).clean() {
+							if isCBPath(k) {
+								note("&" + k)
+								found = true
+							}
+						}
+						if txt := src(p.fset, x.X); !found && isCBPath(txt) {
+							note("&<?>" + txt[strings.Index(txt, ".CB"):])
+						}
+					}
+				}
+			}
+			return true
+		})
+	}
+	return sorted(set)
 }
 
 func writeNotifyFacts(utxo *pkg) (facts int, text string) {
@@ -605,16 +1003,21 @@ func writeNotifyFacts(utxo *pkg) (facts int, text string) {
 		facts++
 	}
 	sb.WriteString("/- GENERATED by go/cmd/gen_c17 (guards.go) from lib/utxo/*.go — do not edit; not in git.\n")
-	sb.WriteString("   What the conditions guarding the calls of the balance-index callbacks depend on. Field paths are rooted in the TYPE of\n")
-	sb.WriteString("   the receiver / parameter they start from; locals, parameters of closures and of non-entry functions are resolved. -/\n")
+	sb.WriteString("   What the conditions guarding the calls of the balance-index callbacks depend on, what the arguments handed to them are\n")
+	sb.WriteString("   made of, and where the installed callbacks can change. Field paths are rooted in the TYPE of the receiver / parameter\n")
+	sb.WriteString("   they start from; locals (every write + the conditions around it), parameters of closures and of non-entry functions are\n")
+	sb.WriteString("   resolved. -/\n")
 	sb.WriteString("namespace GocoinV.Gen.UtxoNotifyFacts\n\n")
-	na, da := notifyGuards(utxo, "NotifyTxAdd")
-	nd, dd := notifyGuards(utxo, "NotifyTxDel")
+	na, da, aa := notifyGuards(utxo, "NotifyTxAdd")
+	nd, dd, ad := notifyGuards(utxo, "NotifyTxDel")
 	if na == 0 || nd == 0 {
 		die(fmt.Errorf("lib/utxo: no call of CB.NotifyTxAdd / CB.NotifyTxDel found (%d / %d)", na, nd))
 	}
 	def("per entry point of lib/utxo through which a call `….CB.NotifyTxAdd(rec)` is reached (CommitBlockTxs: commit's add worker; UndoBlockTxs: the add-back loop): the quantities the conditions guarding the call depend on", "notifyAddGuards", "List (String × List String)", da)
 	def("the same for `….CB.NotifyTxDel(rec, outs)` (UnspentDB.del, reached from commit's del worker and from UndoBlockTxs' first loop)", "notifyDelGuards", "List (String × List String)", dd)
+	def("per entry point: the quantities the ARGUMENT of `….CB.NotifyTxAdd(rec)` is made of (a record of the block's AddList; a record read back from the undo file)", "notifyAddArgs", "List (String × List String)", aa)
+	def("per entry point: the quantities the ARGUMENTS of `….CB.NotifyTxDel(rec, outs)` are made of (the stored record decoded by NewUtxoRec, the block's spent mask / an all-true mask as long as the transaction's outputs)", "notifyDelArgs", "List (String × List String)", ad)
+	def("every place in lib/utxo that may change which callbacks are installed (assignment to …CB / …CB.NotifyTxAdd / …CB.NotifyTxDel, address of such a field, whole-struct assignment): `<entry point>: <target> = {what the value is made of}`", "callbackWrites", "List String", leanList(cbWrites(utxo)))
 	sb.WriteString("\nend GocoinV.Gen.UtxoNotifyFacts\n")
 	return facts, sb.String()
 }
